@@ -89,6 +89,10 @@ func (p *Path) global(g *ssa.Global) *Object {
 	if o, ok := p.globals[g]; ok {
 		return o
 	}
+	if p.guard != nil {
+		lo := p.objN
+		defer func() { p.extRanges = append(p.extRanges, [2]int{lo, p.objN}) }()
+	}
 	// make sure the owning package is initialised (if it is one we interpret)
 	if g.Pkg != nil && p.eng.initPkg(g.Pkg.Pkg.Path()) && !p.initRun[g.Pkg] {
 		p.runInit(g.Pkg)
@@ -321,6 +325,9 @@ func (p *Path) runBlocks(fr *Frame, b *ssa.BasicBlock, stop *ssa.BasicBlock) Val
 			case *ssa.MapUpdate:
 				p.mapUpdate(p.get(fr, in.Map), p.get(fr, in.Key), p.get(fr, in.Value))
 			case *ssa.Defer:
+				if p.guard != nil && len(p.stack) <= p.mergeDepth {
+					panic(mergeAbort{"defer in the frame of the merge region"})
+				}
 				d := &deferred{call: &in.Call}
 				d.fn, d.args = p.prepareCall(fr, &in.Call)
 				fr.defers = append(fr.defers, d)
@@ -328,6 +335,9 @@ func (p *Path) runBlocks(fr *Frame, b *ssa.BasicBlock, stop *ssa.BasicBlock) Val
 				p.runDefers(fr)
 			case *ssa.Go:
 				fnv, args := p.prepareCall(fr, &in.Call)
+				if p.guard != nil {
+					panic(mergeAbort{"go statement in merge region"})
+				}
 				p.events = append(p.events, Event{Name: "go", Args: append([]Value{fnv}, args...)})
 			case *ssa.Send:
 				ch := p.get(fr, in.Chan)
